@@ -127,6 +127,31 @@ def run_nameplate_history(hist, prefixes):
     return out, internal
 
 
+def helper_word_completions(prefixes, nameplate="4"):
+    """word completions as an application gets them: a real wormhole doing input_code(), the nameplate chosen and claimed,
+    the word list delivered, then helper.get_word_completions(prefix) for every prefix -> {prefix: set or exception}"""
+    from ..mbworld import MailboxWorld
+    w = MailboxWorld(seed=0, clients=(("A", "deferred"),))
+    w.apply({"a": "ConnOpen", "c": "A"})
+    w.apply({"a": "AppInput", "c": "A"})
+    cl = w.clients["A"]
+    app = w.server.app(cl.appid)
+    app["nameplates"] = {nameplate: {"mailbox": "mbx" + nameplate, "sides": {"0f0f0f0f0f": True}}}
+    w.apply({"a": "AppHelper", "c": "A", "m": "refresh_nameplates"})
+    w.drain()
+    cl.helper.choose_nameplate(nameplate)
+    w.drain()
+    got = {}
+    for p_ in prefixes:
+        try:
+            got[p_] = set(cl.helper.get_word_completions(p_))
+        except Exception as e:
+            got[p_] = e
+    internal = ["%s:%s:%r" % x for x in w.internal]
+    w.shutdown()
+    return got, internal
+
+
 def run(prop, tier):
     assert prop == "C19"
     quick = tier == "quick"
@@ -188,6 +213,39 @@ def run(prop, tier):
         for nw, cs in more.items():
             # (the cases with fewer complete words than NumWords-1 repeat those of the shorter codes but for the suffix)
             check_completions(cs if nw == 3 or not quick else [c for c in cs if c[1] >= nw - 2], nw)
+        # ---------------- 2a'. the same question asked where an application asks it: the input helper of a real wormhole
+        # (two-word codes: the helper has no length argument).  Every enumerated prefix class of the model is sampled, and typed
+        # text of any shape is added - stray hyphens, empty words, more words than the code has: whatever is offered for it
+        # must extend it, and must be what the word list itself offers
+        hp = {}
+        for (_, count, last, words, suffix) in cmps:
+            if rng.random() < (0.15 if quick else 1.0) or len(last) <= 1:
+                done = [(odd if i % 2 == 0 else even)[rng.randrange(256)] for i in range(count)]
+                hp["-".join(done + [last])] = {"-".join(done) + ("-" if done else "") + w_ + suffix for w_ in words}
+        stray = ["-", "--", "-a", "-tol", "--a", "a-", "a--", "a--b", "-a-", "tol-", "-tolerance", "tolerance--", "a-b-c", "a-b-", "---",
+                 "aardvark-adroitness-a", "-aardvark-a", "zzz-a", "-zzz"]
+        for p_ in stray:
+            hp.setdefault(p_, None)
+        got_h, internal_h = helper_word_completions(sorted(hp))
+        for p_ in sorted(hp):
+            evaluations += 1
+            distinct.add(("helper-cmp", p_))
+            g = got_h[p_]
+            ref = wl.get_completions(p_)
+            not_ext = [c for c in g if not c.startswith(p_)] if isinstance(g, set) else []
+            want = hp[p_] if hp[p_] is not None else ref
+            if not isinstance(g, set) or not_ext or g != want:
+                v.violation({"clause": "helper-completions", "prefix_class": "stray-hyphens" if hp[p_] is None else "enumerated",
+                             "not_extending": bool(not_ext)},
+                            "input helper get_word_completions(%r) = %r..., expected %r...%s" % (
+                                p_, sorted(g)[:3] if isinstance(g, set) else g, sorted(want)[:3],
+                                " (offers text that does not extend what was typed: %r)" % not_ext[:2] if not_ext else ""),
+                            {"call": "helper.get_word_completions", "prefix": p_})
+                break
+        if internal_h:
+            v.violation({"clause": "helper-completions", "internal": True}, "internal error while completing: %r" % internal_h[:2],
+                        {"call": "helper.get_word_completions", "prefixes": sorted(hp)})
+        cov["helper_completion_cases"] = len(hp)
         cov["samples"].append({"case": "get_completions", "prefix": cmps[5][2], "count": cmps[5][1],
                                "expected_words": sorted(cmps[5][3])[:5]})
         # ---------------- 2b. choose_words as a function of the random bytes
